@@ -403,7 +403,10 @@ class C02(Property):
     TRUSTED = ["Python str.isalnum/isalpha/isdigit and int() are modelled for ASCII only (generators emit ASCII)",
                "`text.expandtabs()` and line/position bookkeeping only affect error messages, which are not observed",
                "multipliers are modelled as exact fractions; generated multipliers are dyadic so the float product is exact",
-               "error *kinds* are compared (syntax / value / attribute), not messages"]
+               "error *kinds* are compared (syntax / value / attribute), not messages",
+               "get_ruleset sequences: build_config, the signature/HMM file readers and the equivalence-group / dynamic-"
+               "profile checks of Ruleset.__post_init__ run for real but are not modelled; fungal multipliers reach Lean "
+               "as float.as_integer_ratio() (exact)"]
 
     def __init__(self) -> None:
         self._tmp: Optional[str] = None
@@ -598,14 +601,14 @@ class C02(Property):
                    "cmul": rng.choice([1.0, 1.5, 2.0, 0.5]), "nmul": rng.choice([1.0, 1.5, 3.0, 0.25])}
 
     def cases(self, rng: random.Random, tier: str, deep: bool) -> Iterator[Dict[str, Any]]:
-        yield from self.ruleset_cases(rng, 150 if tier == "thorough" else 40 if deep else 14)
+        yield from self.ruleset_cases(rng, 150 if tier == "thorough" else 40 if deep else 12)
         yield from self.from_files_cases(rng, 12 if deep else 4)
         for level in ("strict", "relaxed", "loose"):
             yield {"kind": "parse", "shipped": level, "via": "create", "cmul": [1, 1], "nmul": [1, 1]}
         yield {"kind": "parse", "shipped": "loose", "via": "create", "cmul": [3, 2], "nmul": [1, 2]}
         yield {"kind": "parse", "shipped": rng.choice(["strict", "relaxed", "loose"]), "via": "get_rules",
                "cmul": [1, 1], "nmul": [1, 1]}
-        n_well = 2500 if deep else 450
+        n_well = 2500 if deep else 400
         for i in range(n_well):
             case, _ = self.wellformed(rng)
             yield case
